@@ -590,6 +590,47 @@ def application_variants(res, rng, n):
         MODULE_CLASSES.update(originals)
 
 
+def deleted_targets(res, rng, n):
+    """An embedded module that some EARLIER exposed controller points at is taken out by hand (`project.modules[i] = None`, it is
+    not wired to anything): the later exposed controllers keep their types and values through clone / save / load."""
+    import rv.api as api
+    for k in range(n):
+        inner = api.Project()
+        mods = [inner.new_module(api.m.Amplifier, name=f"a{i}") for i in range(4)]
+        mm = api.m.MetaModule(project=inner)
+        mm.user_defined_controllers = 4
+        targets = [(mods[0], "volume"), (mods[1], "balance"), (mods[2], "dc_offset"), (mods[3], "inverse")]
+        rng.shuffle(targets)
+        for i, (mod, cname) in enumerate(targets):
+            mm.mappings.values[i] = mm.Mapping((mod.index, list(type(mod).controllers).index(cname)))
+        mm.update_user_defined_controllers()
+        victim = rng.randrange(3)                       # never the last one: something typed follows
+        inner.modules[targets[victim][0].index] = None
+        want = [(mm.get_raw(f"user_defined_{i + 1}"), repr(getattr(mm, f"user_defined_{i + 1}"))) for i in range(4)]
+        case = {"family": "deleted-targets", "order": [t[1] for t in targets], "victim_slot": victim + 1}
+        res.count("deleted_target_cases")
+        for how in ("clone", "project"):
+            try:
+                if how == "clone":
+                    back = mm.clone()
+                else:
+                    p = api.Project()
+                    p.attach_module(mm.clone())
+                    back = workload.load(p.read()).modules[1]
+            except Exception as e:
+                res.violation(f"C15:deleted-target-raises:{workload.exc_key(e)}", f"{how}: {e!r}", case)
+                break
+            got = [(back.get_raw(f"user_defined_{i + 1}"), repr(getattr(back, f"user_defined_{i + 1}"))) for i in range(4)]
+            for i in range(4):
+                if i != victim and got[i] != want[i]:
+                    res.violation(f"C15:{how}:/controllers/user_defined_N:after-deleted-target", f"embedded module behind exposed controller {victim + 1} taken out by hand; controller {i + 1} "
+                                                                                                f"({targets[i][1]}) was {want[i]}, after {how} {got[i]}", case)
+                    break
+            else:
+                continue
+            break
+
+
 def run_shard(spec_, res):
     monitors.install()
     for i in range(spec_["start"], spec_["start"] + spec_["count"]):
@@ -607,6 +648,7 @@ def run_shard(spec_, res):
     nested_repoint(res, _random.Random(spec_["seed"] * 31 + spec_["shard"]), 40 if spec_["tier"] == "quick" else 400)
     constructor_count(res, _random.Random(spec_["seed"] * 37 + spec_["shard"]), 12 if spec_["tier"] == "quick" else 60)
     application_variants(res, _random.Random(spec_["seed"] * 41 + spec_["shard"]), 12 if spec_["tier"] == "quick" else 100)
+    deleted_targets(res, _random.Random(spec_["seed"] * 43 + spec_["shard"]), 8 if spec_["tier"] == "quick" else 60)
     for name, msg in monitors.take_failures():
         res.violation(f"C15:ambient:{name}", msg, {"monitor": name})
     res.exhaustive = True
